@@ -12,7 +12,7 @@ from sim import engine  # noqa: E402
 
 prop = sys.argv[1]
 n_runs = int(sys.argv[2])
-base = int(sys.argv[3]) if len(sys.argv) > 3 else 0
+base = int(sys.argv[3]) if len(sys.argv) > 3 and not sys.argv[3].startswith("--") else 0
 os.makedirs(engine.WORK_DIR, exist_ok=True)
 procs = []
 nw = 16
@@ -32,15 +32,22 @@ for p, out in procs:
         if rec["type"] == "violation":
             a = rec.get("attribution") or {}
             key = (tuple(rec["sig"][1:]), tuple(a.get("culprit_names", [])), a.get("culprit_accuracy"), a.get("parent_root_accuracy"), tuple(sorted(set(a.get("culprit_writers", [])))),
-                   a.get("requires_fault"), a.get("approximate_factor_involved"), a.get("culprits_written_by_queries_inexact_on_fresh_copy_too"))
+                   a.get("requires_fault"), tuple(a.get("reader_pairs") or []), a.get("approximate_factor_involved"), a.get("culprits_written_by_queries_inexact_on_fresh_copy_too"))
             groups[key].append(rec)
         elif rec["type"] == "harness_error":
             herr.append(rec)
     os.remove(out)
+from sim import known as K  # noqa: E402
+
+known = engine.load_known()
+unmatched_only = "--unmatched" in sys.argv
 print(f"{n_runs} runs, {time.time() - t0:.0f}s, {sum(len(v) for v in groups.values())} violations in {len(groups)} groups, {len(herr)} harness errors")
 os.makedirs("/tmp/census", exist_ok=True)
 for i, (k, v) in enumerate(sorted(groups.items(), key=lambda kv: -len(kv[1]))):
-    print(f"[{i}] x{len(v)} {k}")
+    kid = K.match(known, prop, v[0])
+    if unmatched_only and kid is not None:
+        continue
+    print(f"[{i}] x{len(v)} {kid or 'UNMATCHED'} {k}")
     print("     " + (v[0]["detail"] or "")[:300].replace("\n", " "))
     json.dump({"property": prop, "scenario": v[0]["scenario"], "sig": v[0]["sig"], "attribution": v[0].get("attribution"), "run_seed": v[0]["run_seed"], "digest": v[0]["digest"]},
               open(f"/tmp/census/{prop}-{i}.json", "w"))
